@@ -6023,6 +6023,10 @@ class CodegenCtx:
         # Find all transitions that operate on End
         unconditional_end_transition = state[DFTransition.End]
 
+        # If the program has already reached its end here, running off it at end-of-input is not a mismatch: don't follow the error path.
+        if unconditional_end_transition and unconditional_end_transition.error_handling and state in self.dfa.accepting_states:
+            unconditional_end_transition = None
+
         result.add("// possible end transitions")
         
         # Create all transitions for possible conditions
